@@ -276,9 +276,87 @@ def hist_job(args: tuple[int, int, int]) -> dict[str, Any]:
     return out
 
 
+def fresh_hist_job(args: tuple[int, int, int]) -> dict[str, Any]:
+    """Short histories on a *fresh* connection each (the first registration of a type creates state a reused connection never shows again)."""
+    env.load()
+    depth, part, parts = args
+    out: dict[str, Any] = {"evals": 0, "viol": [], "dispatches": 0}
+    all_bodies = list(itertools.product(BODIES, repeat=3))
+    for bi, bodies in enumerate(all_bodies):
+        if bi % parts != part:
+            continue
+        for d in range(2, depth + 1):
+            for hist in itertools.product(OPS, repeat=d):
+                if not hist[-1].startswith("deliver") or not any(h.startswith("sub") for h in hist):
+                    continue
+                hw = HistWorld()
+                try:
+                    out["evals"] += 1
+                    out["dispatches"] += sum(1 for x in hist if x.startswith("deliver"))
+                    v = hw.run(bodies, hist)
+                finally:
+                    hw.w.close()
+                if v:
+                    out["viol"].append({"key": f"fresh-history:{bodies}:{hist}", "clause": "C12:history:(fresh connection) " + v, "bodies": list(bodies), "history": list(hist)})
+                    if len(out["viol"]) > 3:
+                        return out
+    return out
+
+
 # ------------------------------------------------------------------------------------------------------------
 # (c) peer requests
 # ------------------------------------------------------------------------------------------------------------
+def peer_connect_job(args: tuple[bool, bool, tuple[str, ...], bool]) -> dict[str, Any]:
+    """Peer requests that arrive while the hello/login exchange is still running (after finish_connection wrote its hello)."""
+    env.load()
+    noise, login, seq, one_chunk = args
+    out: dict[str, Any] = {"evals": 1, "viol": []}
+    w = ConnWorld(noise=noise, login=login)
+    try:
+        w.do_start()
+        w.do_tcp_ok()
+        w.do_finish_call()
+        w.do_handshake()
+        n0 = len(w.sent_frames())
+        frames = []
+        for a in seq:
+            if a == "HELLO":
+                frames.append(w.dframe(w.hello_resp()))
+            elif a == "CONN":
+                frames.append(w.dframe(w.connect_resp()))
+            else:
+                frames.append(w.dframe(mk(PEER[a])))  # type: ignore[arg-type]
+        if one_chunk:
+            w.io_chunk(w.sock, b"".join(frames))
+            w.drain()
+        else:
+            for f in frames:
+                if w.sock is None or w.sock.closed:
+                    break
+                w.io_chunk(w.sock, f)
+                w.drain()
+        exp: list[str] = []
+        for a in seq:
+            if a in ANSWER:
+                exp.append(ANSWER[a])
+            if a == "DR":
+                break
+        ids = env.proto_ids()
+        got = [ids.get(t, str(t)) for t, _ in w.sent_frames()[n0:]]
+        key = f"peer-connect:{'noise' if noise else 'plain'}:{'login' if login else 'nologin'}:{'+'.join(seq)}:{'one-chunk' if one_chunk else 'separate'}"
+        d = {"noise": noise, "seq": list(seq), "one_chunk": one_chunk, "login": login}
+        if got != exp:
+            out["viol"].append({"key": key, "clause": f"C12:peer:during the hello/login exchange the device sent {list(seq)}; client wrote {got}, expected {exp}", **d})
+        if "DR" in seq:
+            if w.conn.connection_state.name != "CLOSED":
+                out["viol"].append({"key": key + ":close", "clause": f"C12:peer:disconnect request during the hello/login exchange: state {w.conn.connection_state.name}, expected CLOSED", **d})
+        elif w.outcome("finish") != "ok":
+            out["viol"].append({"key": key + ":finish", "clause": f"C12:peer:finish_connection ended {w.outcome('finish')} although hello/login were answered correctly ({list(seq)})", **d})
+    finally:
+        w.close()
+    return out
+
+
 PEER = {"PR": "PingRequest", "TR": "GetTimeRequest", "DR": "DisconnectRequest", "ST": "SensorStateResponse", "UK": None}
 ANSWER = {"PR": "PingResponse", "TR": "GetTimeResponse", "DR": "DisconnectResponse"}
 
@@ -360,11 +438,25 @@ def run(tier: str, seed: int) -> Result:
     alph = ("PR", "TR", "DR", "ST", "UK")
     seqs = [s for n in (1, 2, 3) for s in itertools.product(alph, repeat=n)]
     jobs_c = [(noise, s, oc) for noise in (False, True) for s in seqs for oc in (False, True)]
+    jobs_b2 = [(3, p, 25) for p in range(25)]
+    jobs_c2: list[tuple[bool, bool, tuple[str, ...], bool]] = []
+    for noise in (False, True):
+        for login in (False, True):
+            tail = ("HELLO", "CONN") if login else ("HELLO",)
+            for rq in ("PR", "TR", "DR"):
+                for pos in range(len(tail) + 1):
+                    sq = tail[:pos] + (rq,) + tail[pos:]
+                    for oc in (False, True):
+                        jobs_c2.append((noise, login, sq, oc))
+                if rq != "DR":
+                    jobs_c2.append((noise, login, (rq, rq) + tail + (rq,), True))
     with ctx.Pool(nproc) as pool:
         ra = pool.map_async(sweep_job, jobs_a, chunksize=1)
         rb = pool.map_async(hist_job, jobs_b, chunksize=1)
+        rb2 = pool.map_async(fresh_hist_job, jobs_b2, chunksize=1)
         rc = pool.map_async(peer_job, jobs_c, chunksize=16)
-        outs_a, outs_b, outs_c = ra.get(), rb.get(), rc.get()
+        rc2 = pool.map_async(peer_connect_job, jobs_c2, chunksize=4)
+        outs_a, outs_b, outs_c = ra.get(), rb.get() + rb2.get(), rc.get() + rc2.get()
     # large varints (plaintext only: the Noise type field is 16 bit)
     big_evals = 0
     w, probe = connected(False)
